@@ -135,7 +135,8 @@ def build_batch(fam, cfg, spec):
     n, T, W, kind = spec['n'], spec['T'], spec['W'], spec['kind']
     loud = kind != 'good'
     traces = gen_traces(cfg, rs, (n, T), loud)
-    data = good_data(fam, cfg, rs, n, W, loud)
+    # extreme-magnitude batches keep the ordinary data: as a first batch they must select the same class bracket (and kernel)
+    data = good_data(fam, cfg, rs, n, W, loud and not kind.startswith('huge'))
     env = {'mem_ok': True, 'user': False}
     if kind == 'good':
         pass
@@ -200,6 +201,17 @@ def build_batch(fam, cfg, spec):
         traces = np.full((n, T), 7, dtype='uint8')
     elif kind == 'user':
         env['user'] = True
+    elif kind in ('huge_f32', 'huge_f64', 'huge_i64'):
+        # extreme magnitudes, all positive: the squares (float32: 1e38..1e40, float64 -> float32: inf) leave the range of the precision.
+        # The code ACCEPTS such batches (sums become inf); a version that refuses them half-way must leave no trace either.
+        if kind == 'huge_f32':
+            traces = rs.uniform(1e19, 1e20, (n, T)).astype('float32')
+        elif kind == 'huge_f64':
+            traces = rs.uniform(1e153, 1e154, (n, T)).astype('float64')
+        else:
+            traces = rs.randint(2 ** 61, 2 ** 62, (n, T)).astype('int64')
+    elif kind == 'huge_data':           # CPA only: float data whose squares overflow float32
+        data = rs.uniform(1e19, 1e20, (n, W)).astype('float32')
     elif kind == 'loud_good':       # an ordinary batch with the loud values (marked batches of a run)
         pass
     else:
@@ -328,6 +340,18 @@ def make_object(fam, cfg, via):
                 kw['bin_edges'] = [0, 5, 10, 15, 20]
             return D.MIADistinguisher(partitions=parts, **kw)
         return {'anova': D.ANOVADistinguisher, 'nicv': D.NICVDistinguisher, 'snr': D.SNRDistinguisher}[fam](partitions=parts)
+    if via == 'conv':      # attack objects with a convergence step
+        @scared.attack_selection_function(guesses=range(4))
+        def asf(data, tag, guesses):
+            if (tag == 1).any():
+                raise UserError('selection function')
+            out = np.empty((data.shape[0], len(guesses), data.shape[1]), dtype='uint8')
+            for i, g in enumerate(guesses):
+                out[:, i, :] = data ^ g
+            return out
+        if fam == 'cpa':
+            return scared.CPAAttack(selection_function=asf, model=scared.Value(), discriminant=scared.maxabs, convergence_step=cfg['step'])
+        return scared.DPAAttack(selection_function=asf, model=scared.Monobit(0), discriminant=scared.maxabs, convergence_step=cfg['step'])
     # analysis objects: the selection function hands the `data` metadata over unchanged, the model is Value / Monobit(0)
     ctl = {'sf_raise': False, 'model_raise': False}
 
@@ -467,8 +491,22 @@ def drive(fam, cfg, via, ops):
             except Exception as e:
                 obs.append({'t': 'compute_raised', 'exc': exc_enum(e), 'count': int(obj.processed_traces)})
             continue
+        if op['op'] == 'conv':         # read-only look at the analysis-level convergence_traces (shape and values)
+            facts.append(None)
+            ct = getattr(obj, 'convergence_traces', None)
+            if int(obj.processed_traces) == 0:
+                obs.append({'t': 'compute_raised', 'exc': 'ExDistinguisher', 'count': 0, 'conv_none': ct is None})
+            else:
+                vals = [] if ct is None else [float(ct.ndim)] + [float(x) for x in ct.shape] + _flat(ct)
+                obs.append({'t': 'result', 'vals': vals, 'count': int(obj.processed_traces)})
+            continue
         if op['op'] == 'run':
             samples, data, tag, fs = run_container_arrays(fam, cfg, op['bs'])
+            if via == 'conv':           # the attack selection function returns one word per guess and data word
+                for f in fs:
+                    f['words'] *= 4
+                    if fam == 'dpa':
+                        f['dmax'], f['dmin'] = 1, 0
             facts.append(fs)
             ths = estraces.read_ths_from_ram(samples=samples, data=data, tag=tag)
             mem_bad = any(not f['mem_ok'] for f in fs)
@@ -525,7 +563,7 @@ def cleaned(ops, obs):
     out = []
     prev = 0
     for op, o in zip(ops, obs):
-        if op['op'] == 'compute':
+        if op['op'] in ('compute', 'conv'):
             out.append(op)
         elif o['t'] == 'accepted':
             out.append(op)
@@ -564,7 +602,7 @@ def coq_obs(o):
 def coq_ops(ops, facts):
     out = []
     for op, f in zip(ops, facts):
-        if op['op'] == 'compute':
+        if op['op'] in ('compute', 'conv'):
             out.append('HCompute')
         elif op['op'] == 'update':
             out.append('(HUpdate %s)' % coq_batch(f))
@@ -745,6 +783,16 @@ class UpdKind(Kind):
                 odd = [k for k in odd if k != 'words1']
             if odd and self.via == 'update':
                 yield self.case(fam, cfg, history_with_insertions(fam, vseed, T, W, goods[:2], {1: odd, 2: laters[:2]}, op=self.via))
+            # --- extreme magnitudes (accepted by the code: the model says accepted; a version refusing them half-way is flagged)
+            huge = ['huge_f32'] + (['huge_f64', 'huge_i64'] if (not heavy or not quick or fam in ('template_match', 'template_dpa_match')) else [])
+            if fam in ('cpa', 'cpa_alt') and self.via == 'update':
+                huge = huge + ['huge_data']
+            hcfg = dict(cfg, style='big') if fam in ('anova', 'nicv', 'snr') else cfg     # > 9 classes: one kernel, no timing-dependent choice
+            if fam == 'template_build':     # its compute() runs pinv on the (now infinite) pooled covariance and raises: outside the model
+                huge = []
+            for hk in huge:
+                first = [] if fam == 'mia' else [hk]      # MIA: automatic bin edges of such a first batch are refused as non uniform
+                yield self.case(fam, hcfg, history_with_insertions(fam, vseed, T, W, [10, 7], {0: first, 1: [hk, 'tlen'], 2: ['tlen_short', hk]}, op=self.via))
             # --- leak detectors (CPA, alternative CPA, DPA): float traces with a column that is constant, and not exact in float32,
             #     over all accepted batches (and a constant data word for CPA); every refused batch varies there
             if fam in ('cpa', 'cpa_alt', 'dpa'):
@@ -941,4 +989,43 @@ class RunKind(UpdKind):
         return ops
 
 
-KINDS = [UpdKind(), ProcKind(), RunKind()]
+class ConvKind(RunKind):
+    name = 'convergence_history'
+    via = 'conv'
+    rule = ('CPAAttack / DPAAttack with convergence_step: accepted runs leaving a pending convergence window, runs refused at their FIRST batch '
+            '(raising selection function / preprocess, batch shortened by the preprocess) in between; convergence_traces (shape and values) '
+            'and compute() are read after every run and must equal those of the history without the refused runs')
+
+    def fams(self):
+        return ['cpa', 'dpa']
+
+    def gen(self, rng, tier):
+        vseed = rng.randrange(1, 10 ** 6)
+        for fam in self.fams():
+            T, W = dims(fam, rng)
+            for n in ((5,) if tier == 'quick' else (4, 5, 7)):
+                cfg = dict(default_cfg(fam, rng, T), step=2 * n)
+                plans = [
+                    [(3, None), (1, 'user'), (2, None)],                      # 3n traces (pending window), refused run, 2n more
+                    [(3, None), (3, 'user_pre'), (3, 'tlen_short'), (1, None)],
+                    [(1, 'user'), (3, None), (2, 'tlen_short')],               # refused first of all
+                    [(2, None), (2, 'user'), (1, None), (1, 'user_pre')],      # no pending window at the first refusal
+                    [(5, None), (4, 'tlen_short'), (4, 'user'), (3, None)],
+                ]
+                nrand = 3 if tier == 'quick' else 20
+                for _ in range(nrand):
+                    plans.append([(rng.randint(1, 5), rng.choice([None, None, 'user', 'user_pre', 'tlen_short'])) for _ in range(rng.randint(2, 5))])
+                for plan in plans:
+                    ids = _Ids()
+                    ops = []
+                    seen_good = False
+                    for nb, bad in plan:
+                        if bad == 'tlen_short' and not seen_good:     # it would be accepted as the first batch ever
+                            bad = 'user'
+                        seen_good = seen_good or bad is None
+                        bs = [spec(ids, vseed, n, T, W, (bad if (bad and j == 0) else 'good')) for j in range(nb)]
+                        ops += [{'op': 'run', 'bs': bs}, {'op': 'conv'}, {'op': 'compute'}]
+                    yield self.case(fam, cfg, ops)
+
+
+KINDS = [UpdKind(), ProcKind(), RunKind(), ConvKind()]
